@@ -17,6 +17,21 @@ for mod in (".", "internal/benchmarks"):
         if o.get("Test") and o.get("Action") in ("pass", "fail"):
             (passed if o["Action"] == "pass" else failed).add("%s::%s" % (o["Package"], o["Test"]))
 missing = [t for t in base["stable_pass"] if t not in passed]
+# wall-clock / load sensitive tests (e.g. parser::TestPathological, the synctestx hammer in internal/intern) can
+# fail on a loaded machine: re-run the packages of missing tests alone, up to twice, before judging
+for _attempt in range(2):
+    if not missing:
+        break
+    pkgs = sorted({t.split("::")[0] for t in missing})
+    for pkg in pkgs:
+        rel = "./" + pkg[len("github.com/bufbuild/protocompile/"):] if pkg != "github.com/bufbuild/protocompile" else "."
+        p = subprocess.run(["go", "test", "-json", "-vet=off", "-count=1", "-timeout", "25m", rel], cwd=repo, env=env, capture_output=True, text=True)
+        for line in p.stdout.splitlines():
+            try: o = json.loads(line)
+            except Exception: continue
+            if o.get("Test") and o.get("Action") == "pass":
+                passed.add("%s::%s" % (o["Package"], o["Test"]))
+    missing = [t for t in base["stable_pass"] if t not in passed]
 print("stable_pass=%d passed_now=%d missing=%d" % (len(base["stable_pass"]), len(passed), len(missing)))
 for t in missing[:40]: print("  MISSING", t, "(failed)" if t in failed else "(not run)")
 sys.exit(1 if missing else 0)
